@@ -7,6 +7,7 @@ The "documented order" is itself the specification; the theorem content is the o
 over the whole option lattice and the algebra of the inverted transformation.
 -/
 import EvoModel.Model.TrajPlan
+import EvoModel.Model.TrajPipeline
 import EvoModel.Gen.TrajOptions
 import EvoModel.Lemmas.Lin
 import Mathlib.Tactic.FieldSimp
@@ -21,34 +22,36 @@ theorem opt_rank_sublist (b : Bool) (k : Kind) : List.Sublist ((opt b k).map Kin
 theorem mem_opt {b : Bool} {k x : Kind} : x ∈ opt b k ↔ b = true ∧ x = k := by
   cases b <;> simp [opt]
 
-theorem plane_rank_sublist (p : Option Plane) : List.Sublist ((optPlane p).map Kind.rank) [8] := by
+theorem plane_rank_sublist (p : Option Plane) : List.Sublist ((optPlane p).map Kind.rank) [9] := by
   cases p <;> simp [Kind.rank, optPlane]
 
-theorem exports_rank_sublist (f : Flags) : List.Sublist ((exports f).map Kind.rank) [9, 10] := by
+theorem exports_rank_sublist (f : Flags) : List.Sublist ((exports f).map Kind.rank) [10, 11] := by
   unfold exports
   rw [List.map_append]
   exact (opt_rank_sublist _ _).append (opt_rank_sublist _ _)
 
 /-- **documented order, step kinds**: whatever the options, the ranks of the steps applied to a
 trajectory are strictly increasing in the order downsample(0) < motion filter(1) < merge(2) <
-time offset(3) < association(4) < Umeyama alignment(5) < origin alignment(6) < transformation(7) <
-projection(8) < export(9, 10); each step occurs at most once. -/
+time offset(3) < association(4) < Umeyama alignment(5) < origin alignment(6) < left transformation(7) <
+right transformation(8) < projection(9) < export(10, 11); each step occurs at most once. -/
 theorem kinds_order (f : Flags) (l : List Kind) (h : kinds f = .ok l) :
     (l.map Kind.rank).Pairwise (· < ·) := by
   unfold kinds at h
   split at h
   · cases h
   · cases h
-    have hs : [0, 1, 2, 3, 4, 5, 6, 7, 8, 9, 10].Pairwise (· < ·) := by decide
+    have hs : [0, 1, 2, 3, 4, 5, 6, 7, 8, 9, 10, 11].Pairwise (· < ·) := by decide
     refine List.Pairwise.sublist ?_ hs
     simp only [List.map_append, List.append_assoc]
     exact (opt_rank_sublist _ .downsample).append <| (opt_rank_sublist _ .motionFilter).append <|
       (opt_rank_sublist _ .merge).append <| (opt_rank_sublist _ .tOffset).append <|
       (opt_rank_sublist _ .sync).append <| (opt_rank_sublist _ (.align _ _)).append <|
-      (opt_rank_sublist _ .alignOrigin).append <| (opt_rank_sublist _ (.transform _ _ _ _)).append <|
+      (opt_rank_sublist _ .alignOrigin).append <| (opt_rank_sublist _ (.transform .left _ _ _)).append <|
+      (opt_rank_sublist _ (.transform .right _ _ _)).append <|
       (plane_rank_sublist _).append (exports_rank_sublist f)
 
-theorem rank_attach (o : TrajOpts) (k : Kind) : (attach o k).rank = k.rank := by cases k <;> rfl
+theorem rank_attach (o : TrajOpts) (k : Kind) : (attach o k).rank = k.rank := by
+  cases k <;> first | rfl | (rename_i f _ _ _; cases f <;> rfl)
 
 /-- **documented order** for the plan with values -/
 theorem trajPlan_order (o : TrajOpts) (l : List Step) (h : trajPlan o = .ok l) :
@@ -69,7 +72,7 @@ theorem refPlan_order (o : TrajOpts) : ((refPlan o).map Step.rank).Pairwise (· 
   rw [List.map_map, show (Step.rank ∘ attach o) = Kind.rank from funext (rank_attach o)]
   unfold refKinds
   split
-  · have hs : [0, 1, 8, 9, 10].Pairwise (· < ·) := by decide
+  · have hs : [0, 1, 9, 10, 11].Pairwise (· < ·) := by decide
     refine List.Pairwise.sublist ?_ hs
     simp only [List.map_append, List.append_assoc]
     exact (opt_rank_sublist _ .downsample).append <| (opt_rank_sublist _ .motionFilter).append <|
@@ -90,8 +93,8 @@ theorem mem_kinds (f : Flags) (l : List Kind) (h : kinds f = .ok l) (x : Kind) :
       ((f.synced && f.sub != .kitti) = true ∧ x = .sync) ∨
       ((f.synced && (f.align || f.correctScale)) = true ∧ x = .align f.correctScale (f.correctScale && !f.align)) ∨
       ((f.synced && f.alignOrigin) = true ∧ x = .alignOrigin) ∨
-      ((f.transformLeft || f.transformRight) = true ∧
-        x = .transform (if f.transformLeft then .left else .right) f.invert f.transformRight f.propagate) ∨
+      (f.transformLeft = true ∧ x = .transform .left f.invert false f.propagate) ∨
+      (f.transformRight = true ∧ x = .transform .right f.invert true f.propagate) ∨
       (∃ q, f.plane = some q ∧ x = .project q) ∨
       (f.saveTum = true ∧ x = .exportTum) ∨ (f.saveKitti = true ∧ x = .exportKitti) := by
   unfold kinds at h
@@ -141,19 +144,46 @@ theorem align_wiring (f : Flags) (l : List Kind) (h : kinds f = .ok l) (c s : Bo
   · rintro ⟨⟨_, h1⟩, h2, h3⟩; exact ⟨h1, h2, h3⟩
   · rintro ⟨h1, h2, h3⟩; exact ⟨⟨synced_of_align f h1, h1⟩, h2, h3⟩
 
-/-- **`--transform_right` selects right-multiplication** (and only it), `--invert_transform` the
-inversion, `--propagate_transform` the propagation; the file is the left one when given, else the
-right one; the step exists iff one of the two paths is given -/
+/-- **each transformation file is applied on its own side**: the file of `--transform_left` is
+left-multiplied, the file of `--transform_right` right-multiplied (and only that one), each present
+iff its option is given; `--invert_transform` selects the inversion and `--propagate_transform` the
+propagation of both -/
 theorem transform_right_selects_right_mul (f : Flags) (l : List Kind) (h : kinds f = .ok l)
     (file : TfFile) (inv r p : Bool) :
     Kind.transform file inv r p ∈ l ↔
-      ((f.transformLeft = true ∨ f.transformRight = true) ∧ r = f.transformRight ∧ inv = f.invert ∧
-        p = f.propagate ∧ file = (if f.transformLeft then .left else .right)) := by
+      (((file = .left ∧ f.transformLeft = true ∧ r = false) ∨ (file = .right ∧ f.transformRight = true ∧ r = true)) ∧
+        inv = f.invert ∧ p = f.propagate) := by
   rw [mem_kinds f l h]
-  simp only [reduceCtorEq, and_false, false_or, or_false, exists_false, Kind.transform.injEq, Bool.or_eq_true]
+  simp only [reduceCtorEq, and_false, false_or, or_false, exists_false, Kind.transform.injEq]
   constructor
-  · rintro ⟨h0, h1, h2, h3, h4⟩; exact ⟨h0, h3, h2, h4, h1⟩
-  · rintro ⟨h0, h3, h2, h4, h1⟩; exact ⟨h0, h1, h2, h3, h4⟩
+  · rintro (⟨h0, h1, h2, h3, h4⟩ | ⟨h0, h1, h2, h3, h4⟩)
+    · exact ⟨Or.inl ⟨h1, h0, h3⟩, h2, h4⟩
+    · exact ⟨Or.inr ⟨h1, h0, h3⟩, h2, h4⟩
+  · rintro ⟨(⟨h1, h0, h3⟩ | ⟨h1, h0, h3⟩), h2, h4⟩
+    · exact Or.inl ⟨h0, h1, h2, h3, h4⟩
+    · exact Or.inr ⟨h0, h1, h2, h3, h4⟩
+
+/-- with both options the left file comes first: `L · P · R` -/
+theorem both_transforms_left_then_right (f : Flags) (l : List Kind) (h : kinds f = .ok l)
+    (hl : f.transformLeft = true) (hr : f.transformRight = true) :
+    List.Sublist [Kind.transform .left f.invert false f.propagate, Kind.transform .right f.invert true f.propagate] l := by
+  unfold kinds at h
+  split at h
+  · cases h
+  · cases h
+    simp only [hl, hr, opt, if_true, List.append_assoc]
+    refine List.Sublist.trans ?_ (List.sublist_append_of_sublist_right (List.sublist_append_of_sublist_right
+      (List.sublist_append_of_sublist_right (List.sublist_append_of_sublist_right (List.sublist_append_of_sublist_right
+      (List.sublist_append_of_sublist_right (List.sublist_append_of_sublist_right (List.Sublist.refl _))))))))
+    simp
+
+/-- **finding F13 (code before fix 20269c0)**: with both options the old single step takes the *left*
+file and multiplies it on the *right* (and never uses the right file); the repaired plan has the two
+steps, each on its own side -/
+theorem both_flags_counterexample_prefix (f : Flags) (hl : f.transformLeft = true) (hr : f.transformRight = true) :
+    transformStepOld f = [.transform .left f.invert true f.propagate] ∧
+    transformSteps f = [.transform .left f.invert false f.propagate, .transform .right f.invert true f.propagate] := by
+  simp [transformStepOld, transformSteps, opt, hl, hr]
 
 /-- the time offset value, the down-sampling size, the filter thresholds, `t_max_diff` and
 `n_to_align` reach the step they belong to -/
@@ -321,6 +351,121 @@ theorem invert_sim3_counterexample_prefix :
 /-- the repaired code inverts it correctly -/
 theorem invert_sim3_repaired : (invertTransform T2 2).mul T2 = Pose.one ∧ isSe3Tol T2 = false := by
   decide +kernel
+
+/-! ## running the plan: evo_traj = the documented pipeline -/
+
+section pipeline
+open Evo.TrajPipeline
+variable {σ : Type}
+
+theorem runSteps_append (step : Step → σ → Except PErr σ) (a b : List Step) :
+    runSteps step (a ++ b) = fun s => andThen (runSteps step a s) (runSteps step b) := by
+  funext s
+  induction a generalizing s with
+  | nil => rfl
+  | cons k r ih =>
+    simp only [List.cons_append, runSteps]
+    cases step k s with
+    | error e => rfl
+    | ok s' => exact ih s'
+
+theorem runSteps_opt (step : Step → σ → Except PErr σ) (o : TrajOpts) (b : Bool) (k : Kind) :
+    runSteps step ((opt b k).map (attach o)) = stage step b (attach o k) := by
+  funext s
+  cases b
+  · rfl
+  · simp only [opt, stage, if_true, List.map, runSteps]
+    cases step (attach o k) s <;> rfl
+
+theorem runSteps_optPlane (step : Step → σ → Except PErr σ) (o : TrajOpts) (p : Option TrajPlan.Plane) :
+    runSteps step ((optPlane p).map (attach o)) = stagePlane step p := by
+  funext s
+  cases p with
+  | none => rfl
+  | some q =>
+    simp only [optPlane, stagePlane, List.map, runSteps, attach]
+    cases step (.project q) s <;> rfl
+
+/-- **executing the plan is the documented pipeline** — for every step semantics `step`, every option
+set for which `run` does not die, and every start state: running the plan step by step equals the
+composition "down-sampling, then motion filter, then merge, then time offset, then association, then
+Umeyama alignment, then origin alignment, then the (inverted / right-multiplied / propagated)
+transformation, then projection, then export", each stage present iff its option is set and fed with
+its own argument. -/
+theorem runSteps_is_documented_pipeline (step : Step → σ → Except PErr σ) (o : TrajOpts) (l : List Step)
+    (h : trajPlan o = .ok l) (s : σ) : runSteps step l s = documentedPipeline step o s := by
+  unfold trajPlan at h
+  split at h
+  · cases h
+  · next ks hk =>
+    cases h
+    unfold kinds at hk
+    split at hk
+    · cases hk
+    · cases hk
+      simp only [List.map_append, List.append_assoc, exports, runSteps_append, runSteps_opt, runSteps_optPlane]
+      rfl
+
+/-- the reference: down-sampling, motion filter, projection, export — nothing else -/
+theorem refSteps_is_documented (step : Step → σ → Except PErr σ) (o : TrajOpts) (s : σ) :
+    runSteps step (refPlan o) s = documentedRef step o s := by
+  unfold refPlan refKinds documentedRef
+  by_cases hr : o.flags.ref = true
+  · simp only [hr, ↓reduceIte, List.map_append, List.append_assoc, exports, runSteps_append, runSteps_opt,
+      runSteps_optPlane]
+    rfl
+  · simp [hr, runSteps]
+
+end pipeline
+
+open Evo.TrajPipeline in
+/-- **`trajRun` (evo_traj on rational inputs) is the documented pipeline**: when `run` does not die,
+the exported trajectories are the inputs processed by `documentedPipeline` with the step semantics
+`stepRun` — `Select.downsample`, `Select.motionFilter`, stamp-ordered merge, float offset,
+`Sync.associateIds` against the (down-sampled, filtered, *not* offset) reference, `Align.alignApply` with
+the certified Umeyama triple, `Align.alignOrigin`, `applyTransform` of the loaded / `invertTransform`ed
+matrix on the selected side, `Project.projectPoses` — and the exported reference is the reference
+processed by `documentedRef` only.  Parameters (from evo's run, see `Cert`): motion-filter lengths and
+angles, Umeyama triple, `sim3_scale`, projected headings. -/
+theorem trajRun_is_documented_pipeline (o : TrajOpts) (inp : Inputs) (plan : List Step)
+    (hp : trajPlan o = .ok plan) (refPre : Option Traj) (hr : refBeforeSync o inp = .ok refPre) :
+    trajRun o inp =
+      match documentedPipeline (stepRun (envOf inp refPre)) o ⟨inp.trajs.map (fun t => ⟨t, none⟩), false⟩ with
+      | .error e => .error (.inr e)
+      | .ok st =>
+        match inp.ref with
+        | none => .ok (st.items.map (·.traj), none)
+        | some r =>
+          match documentedRef (refStep inp.refCert) o r with
+          | .error e => .error (.inr e)
+          | .ok r' => .ok (st.items.map (·.traj), some r') := by
+  unfold trajRun
+  simp only [hp, hr]
+  rw [runSteps_is_documented_pipeline _ o plan hp]
+  cases documentedPipeline (stepRun (envOf inp refPre)) o ⟨inp.trajs.map (fun t => ⟨t, none⟩), false⟩ with
+  | error e => rfl
+  | ok st =>
+    cases hrf : inp.ref with
+    | none => rfl
+    | some r =>
+      simp only [refSteps_is_documented]
+      rfl
+
+open Evo.TrajPipeline in
+/-- when `run` dies nothing is computed or exported -/
+theorem trajRun_dies (o : TrajOpts) (inp : Inputs) (d : Die) (h : trajPlan o = .error d) :
+    trajRun o inp = .error (.inl d) := by
+  unfold trajRun; simp only [h]
+
+open Evo.TrajPipeline in
+/-- which model executes which step (definitional unfoldings, recorded so that the step theorems of
+C04 / C05 / C11 / C14 and the transform theorems above apply to the stages of the pipeline) -/
+theorem stepRun_unfold (env : Env) (st : St) :
+    (∀ md, stepRun env (.sync md) st = onItems env st (fun _ it => syncItem env md it)) ∧
+    (∀ cs only n, stepRun env (.align cs only n) st = onItems env st (fun c it => alignItem c cs only it)) ∧
+    (∀ f i r p, stepRun env (.transform f i r p) st = onItems env st (fun _ it => transformItem env f i r p it)) ∧
+    stepRun env .exportTum st = .ok st ∧ stepRun env .exportKitti st = .ok st :=
+  ⟨fun _ => rfl, fun _ _ _ => rfl, fun _ _ _ _ => rfl, rfl, rfl⟩
 
 /-! ## the option table of `main_traj_parser` (translator T) -/
 
